@@ -844,9 +844,19 @@ def collections_from(ctx, fn, is_source):
             g = n.generators[0]
             var = g.target.id if isinstance(g.target, ast.Name) else None
             conds = set()
-            for c in g.ifs:
-                for f, p in both_orders([norm(ctx, fn, c, None)]):
-                    conds.add((ren(f, var), p))
+
+            def conjuncts(c):
+                # `if a and b` selects like `if a if b` (and like the loop form's nested / and-ed guards)
+                if isinstance(c, ast.BoolOp) and isinstance(c.op, ast.And):
+                    for v in c.values:
+                        yield from conjuncts(v)
+                else:
+                    yield c
+
+            for c0 in g.ifs:
+                for c in conjuncts(c0):
+                    for f, p in both_orders([norm(ctx, fn, c, None)]):
+                        conds.add((ren(f, var), p))
             cur, into = n, None
             while cur is not None and not isinstance(cur, ast.stmt):
                 cur = parents.get(id(cur))
@@ -995,3 +1005,333 @@ def inlined_expr(ctx, fn, expr):
     if not nodes:
         nodes = ctx.cfg(fn).nodes_of(expr)
     return inline_locals(ctx, fn, expr, nodes[0]) if nodes else expr
+
+
+def argument_slot_mismatches(ctx, fns, callees=None):
+    """Call sites in `fns` whose positional arguments are plain names that are *also parameter names of the callee*,
+    but sit in another parameter's slot (`f(cluster, output, missing, failed, ...)` against `def f(cluster, output, failed, missing, ...)`).
+    -> (examined, [(fn, call, arg name, slot parameter)]).  Only resolved, unambiguous callees of the package are examined."""
+    examined, out = 0, []
+    for fn in fns:
+        for s in ctx.cg.sites_in(fn):
+            quals = [q for q in s.targets() if q in ctx.ix.functions]
+            if len(quals) != 1:
+                continue
+            callee = ctx.ix.functions[quals[0]]
+            if callees is not None and callee.qual not in callees:
+                continue
+            if s.via_wrapper and callee.qual in s.wrapped:
+                args = s.wrapped_args
+            else:
+                args = s.node.args
+            params = callee.bound_params
+            if any(isinstance(a, ast.Starred) for a in args):
+                continue
+            pairs = [(a.id, params[i]) for i, a in enumerate(args) if i < len(params) and isinstance(a, ast.Name)]
+            rel = [(a, p) for a, p in pairs if a in params]
+            if not rel:
+                continue
+            examined += 1
+            for a, p in rel:
+                if a == p:
+                    continue
+                # the parameter called `a` must itself receive something else than `a` (f(x, job_id, job_id=job_id) is a deliberate double use)
+                own = ctx.arg_for(s, callee, a)
+                if own is None or (isinstance(own, ast.Name) and own.id == a) or own is callee.defaults.get(a):
+                    continue
+                out.append((fn, s.node, a, p))
+    return examined, out
+
+
+def _is_plain_enum(ctx, qual):
+    c = ctx.ix.classes.get(qual)
+    if c is None:
+        return False
+    names = set()
+    for k in ctx.ix.mro(c):
+        for b in k.node.bases:
+            names.add(ast.unparse(b).split(".")[-1])
+    return "Enum" in names and not names & {"str", "int", "IntEnum", "StrEnum"}
+
+
+def enum_literal_compares(ctx, fns):
+    """`==` / `!=` / `in (..)` comparisons in `fns` between an expression whose static type is a plain Enum class and a str/int literal:
+    such a comparison is constant (an Enum member never equals a literal), so the guard it forms never / always fires.
+    -> (typed comparisons examined, [(fn, compare node, enum class)])"""
+    examined, out = 0, []
+    for fn in fns:
+        for n in iter_own(fn.node):
+            if not isinstance(n, ast.Compare) or len(n.ops) != 1 or not isinstance(n.ops[0], (ast.Eq, ast.NotEq, ast.In, ast.NotIn)):
+                continue
+            l, rr = n.left, n.comparators[0]
+            for e, o in ((l, rr), (rr, l)):
+                try:
+                    t = ctx.ty.expr_type(fn, e)
+                except Exception:
+                    t = None
+                if not (t and t[0] == "cls" and _is_plain_enum(ctx, t[1])):
+                    continue
+                examined += 1
+                lits = [o] if isinstance(o, ast.Constant) else (list(o.elts) if isinstance(o, (ast.Tuple, ast.List, ast.Set)) else [])
+                if lits and all(isinstance(x, ast.Constant) and isinstance(x.value, (str, int)) and not isinstance(x.value, bool) for x in lits):
+                    out.append((fn, n, t[1].split(".")[-1]))
+                break
+    return examined, out
+
+
+def keeps_directory_of(value, is_path):
+    """`value` (an expression building a path) mentions a path P (is_path(node) -> True) other than through P.name / P.stem / P.suffix,
+    i.e. the result lies where P lies (P.parent / ..., str(P) + ..., P.with_suffix(...), f"{P}...") and not in the working directory."""
+    parents = {}
+    for n in ast.walk(value):
+        for c in ast.iter_child_nodes(n):
+            parents[id(c)] = n
+    keeps = names = 0
+    for n in ast.walk(value):
+        if is_path(n):
+            par = parents.get(id(n))
+            if isinstance(par, ast.Attribute) and par.value is n and par.attr in ("name", "stem", "suffix", "suffixes"):
+                names += 1
+            else:
+                keeps += 1
+    return keeps > 0, keeps + names
+
+
+def _param_used_as_callable(ctx, callee, param):
+    """the callee calls `param(...)`, forwards it to another call, or stores it in an attribute that is called somewhere in its class"""
+    for n in ast.walk(callee.node):
+        if isinstance(n, ast.Call):
+            if isinstance(n.func, ast.Name) and n.func.id == param:
+                return True
+            if any(isinstance(a, ast.Name) and a.id == param for a in list(n.args) + [k.value for k in n.keywords]):
+                return True
+    stored = {t.attr for n in ast.walk(callee.node) if isinstance(n, ast.Assign) and isinstance(n.value, ast.Name) and n.value.id == param for t in n.targets if isinstance(t, ast.Attribute)}
+    if stored and callee.cls is not None:
+        for m in callee.cls.methods.values():
+            for n in ast.walk(m.node):
+                if isinstance(n, ast.Call) and isinstance(n.func, ast.Attribute) and n.func.attr in stored:
+                    return True
+    return False
+
+
+def uncalled_getters(ctx, fns):
+    """References to a method / function of the package that takes no argument (beyond self), *not called*, whose value is then consumed as data:
+    bound to a name, tested, compared, returned, or passed to a parameter the callee never calls (`flag = intf.am_i_manager` for
+    `intf.am_i_manager()`): a bound method is always truthy, so every test of it takes the same branch.
+    -> (references examined, [(fn, node, callee short)])"""
+    examined, out = 0, []
+    for fn in fns:
+        called = {id(c.func) for c in ast.walk(fn.node) if isinstance(c, ast.Call)}
+        parents = {}
+        for p in ast.walk(fn.node):
+            for c in ast.iter_child_nodes(p):
+                parents[id(c)] = p
+        local_names = {x.id for x in ast.walk(fn.node) if isinstance(x, ast.Name) and isinstance(x.ctx, ast.Store)}
+        for n in iter_own(fn.node):
+            if not isinstance(n, (ast.Attribute, ast.Name)) or not isinstance(getattr(n, "ctx", None), ast.Load) or id(n) in called:
+                continue
+            try:
+                t = ctx.ty.expr_type(fn, n)
+            except Exception:
+                t = None
+            if not (t and t[0] in ("func", "bound")):
+                continue
+            g = ctx.ix.functions.get(t[1])
+            if g is None or g.kind in ("property", "setter") or g.bound_params or g.vararg or g.kwarg:
+                continue
+            if isinstance(n, ast.Name) and (n.id in fn.params or n.id in local_names):
+                continue  # a local that happens to share the name of a module-level function
+            examined += 1
+            par = parents.get(id(n))
+            if isinstance(par, ast.Attribute):
+                continue  # f.__name__ and the like
+            if isinstance(par, ast.keyword):
+                par = parents.get(id(par))
+            if isinstance(par, ast.Call):
+                s = ctx.cg.site_of(fn, par)
+                quals = [q for q in (s.targets() if s else []) if q in ctx.ix.functions]
+                if len(quals) != 1:
+                    continue  # external / unresolved callee (threading.Thread(target=...), a lock wrapper through *args): not judged
+                callee = ctx.ix.functions[quals[0]]
+                pname = None
+                for k in par.keywords:
+                    if k.value is n:
+                        pname = k.arg
+                if pname is None and n in par.args:
+                    i = par.args.index(n)
+                    pname = callee.bound_params[i] if i < len(callee.bound_params) else None
+                if s.via_wrapper or pname is None or _param_used_as_callable(ctx, callee, pname):
+                    continue
+            out.append((fn, n, g.short))
+    return examined, out
+
+
+def on_exception_path_of(ctx, fn, node, body_pred):
+    """`node` lies lexically in a handler or in the finally block of a try whose *body* contains a node satisfying body_pred:
+    it also runs when that body statement raised.  Returns the Try or None."""
+    pm = ctx.parents(fn)
+    cur, child = pm.get(id(node)), node
+    while cur is not None and cur is not fn.node:
+        if isinstance(cur, ast.Try):
+            in_final = any(child is s for s in cur.finalbody)
+            in_handler = any(child is h for h in cur.handlers)
+            if (in_final or in_handler) and any(body_pred(x) for b in cur.body for x in ast.walk(b)):
+                return cur
+        child, cur = cur, pm.get(id(cur))
+    return None
+
+
+def swallowing_handlers(ctx, fn, node):
+    """Exception handlers lexically enclosing `node` (it lies in the try body) that can complete without raising: an exception raised at
+    `node` is then not seen by the caller.  A handler counts as re-raising if every normal path through it ends in a raise."""
+    pm = ctx.parents(fn)
+    out = []
+    cur, child = pm.get(id(node)), node
+    while cur is not None and cur is not fn.node:
+        if isinstance(cur, ast.Try) and any(child is s for s in cur.body):
+            for h in cur.handlers:
+                last = h.body[-1] if h.body else None
+                if not isinstance(last, ast.Raise) and not (isinstance(last, ast.Expr) and isinstance(last.value, ast.Call) and ast.unparse(last.value.func) in ("sys.exit", "os._exit")):
+                    out.append(h)
+        child, cur = cur, pm.get(id(cur))
+    return out
+
+
+def validators_without_value(ctx, classes=None):
+    """pydantic @validator / @root_validator functions with a normal path that ends without `return <value>` (falls off the end or bare return):
+    pydantic stores what the validator returns, so such a path silently replaces the field by None.
+    -> (validators examined, [(fn, last node of the path)])"""
+    examined, out = 0, []
+    for fn in ctx.ix.functions.values():
+        if not any(d and d.split(".")[-1] in ("validator", "root_validator") for d in fn.decorators):
+            continue
+        if classes is not None and (fn.cls is None or fn.cls.name not in classes):
+            continue
+        examined += 1
+        cfg = ctx.cfg(fn)
+        for n in cfg.nodes:
+            for d, k, _ in n.succ:
+                if d is cfg.exit and k in NORMAL_KINDS:
+                    a = n.ast
+                    if not (n.kind == "stmt" and isinstance(a, ast.Return) and a.value is not None and not (isinstance(a.value, ast.Constant) and a.value.value is None)):
+                        out.append((fn, n))
+    return examined, out
+
+
+def str_for_collection_args(ctx, fns, callees=None):
+    """Call sites passing an expression of static type str to a parameter that the callee *iterates* (`for s in param` / a comprehension over
+    it): the callee then walks the string character by character.  -> (examined, [(fn, call, param)])"""
+    examined, out = 0, []
+
+    def iterated(callee, p, depth=0):
+        for n in ast.walk(callee.node):
+            if isinstance(n, (ast.For, ast.comprehension)) and isinstance(n.iter, ast.Name) and n.iter.id == p:
+                return True
+        if depth < 3:  # handed on to a function of the package that iterates it
+            for s2 in ctx.cg.sites_in(callee):
+                qs = [q for q in s2.targets() if q in ctx.ix.functions]
+                if len(qs) != 1:
+                    continue
+                g = ctx.ix.functions[qs[0]]
+                for gp in g.bound_params + g.kwonly:
+                    a2 = ctx.arg_for(s2, g, gp)
+                    if isinstance(a2, ast.Name) and a2.id == p and g is not callee and iterated(g, gp, depth + 1):
+                        return True
+        return False
+
+    for fn in fns:
+        for s in ctx.cg.sites_in(fn):
+            quals = [q for q in s.targets() if q in ctx.ix.functions]
+            if len(quals) != 1 or (callees is not None and quals[0] not in callees):
+                continue
+            callee = ctx.ix.functions[quals[0]]
+            for p in callee.bound_params + callee.kwonly:
+                if not iterated(callee, p):
+                    continue
+                a = ctx.arg_for(s, callee, p)
+                if a is None or a is callee.defaults.get(p):
+                    continue
+                examined += 1
+                try:
+                    t = ctx.ty.expr_type(fn, a)
+                    if t is None and isinstance(a, ast.Name):
+                        t = ctx.ty.expr_type(fn, inlined_expr(ctx, fn, a))
+                except Exception:
+                    t = None
+                if t == ("ext", "str"):
+                    out.append((fn, s.node, p))
+    return examined, out
+
+
+def unknown_keywords(ctx, fns):
+    """Keyword arguments at calls of package functions that take **kwargs, whose name is no parameter of the callee and occurs *nowhere else* in
+    the package as a parameter name, attribute, or string constant (so nobody can ever read it): a misspelt option that is silently dropped.
+    -> (examined, [(fn, call, keyword)])"""
+    vocab = getattr(ctx, "_kw_vocab", None)
+    if vocab is None:
+        vocab = {}
+        for m in ctx.ix.modules.values():
+            for n in ast.walk(m.tree):
+                if isinstance(n, ast.arg):
+                    vocab[n.arg] = vocab.get(n.arg, 0) + 1
+                elif isinstance(n, ast.Constant) and isinstance(n.value, str) and n.value.isidentifier():
+                    vocab[n.value] = vocab.get(n.value, 0) + 1
+                elif isinstance(n, ast.Attribute):
+                    vocab[n.attr] = vocab.get(n.attr, 0) + 1
+                elif isinstance(n, ast.AnnAssign) and isinstance(n.target, ast.Name):
+                    vocab[n.target.id] = vocab.get(n.target.id, 0) + 1
+        ctx._kw_vocab = vocab
+    def closed(callee, depth=0, seen=()):
+        """every use of the callee's **kwargs is a lookup by name (kw.get("x"), kw["x"], kw.pop("x"), "x" in kw) or a forward `**kw` to a
+        package function that is itself closed / has no **kwargs: then a keyword nobody names is dropped for certain"""
+        kw = callee.kwarg
+        if kw is None:
+            return True
+        if depth > 4 or callee.qual in seen:
+            return False
+        parents = {}
+        for p_ in ast.walk(callee.node):
+            for c_ in ast.iter_child_nodes(p_):
+                parents[id(c_)] = p_
+        for n in ast.walk(callee.node):
+            if not (isinstance(n, ast.Name) and n.id == kw and isinstance(n.ctx, ast.Load)):
+                continue
+            par = parents.get(id(n))
+            if isinstance(par, ast.Attribute) and par.attr in ("get", "pop", "keys", "items"):
+                if par.attr in ("keys", "items"):
+                    return False
+                continue
+            if isinstance(par, ast.Subscript) and par.value is n:
+                continue
+            if isinstance(par, ast.Compare) and n in par.comparators:
+                continue
+            if isinstance(par, ast.Call) and isinstance(par.func, ast.Name) and par.func.id in ("str", "repr", "len") or isinstance(par, ast.FormattedValue):
+                continue  # shown in a message
+            if isinstance(par, ast.keyword) and par.arg is None:
+                call = parents.get(id(par))
+                s2 = ctx.cg.site_of(callee, call) if isinstance(call, ast.Call) else None
+                qs = [q for q in (s2.targets() if s2 else []) if q in ctx.ix.functions]
+                if not qs or (s2 and s2.external):
+                    return False
+                if all(closed(ctx.ix.functions[q], depth + 1, seen + (callee.qual,)) for q in qs):
+                    continue
+                return False
+            return False
+        return True
+
+    examined, out = 0, []
+    for fn in fns:
+        for s in ctx.cg.sites_in(fn):
+            quals = [q for q in s.targets() if q in ctx.ix.functions]
+            if not quals or s.via_wrapper:
+                continue
+            callees = [ctx.ix.functions[q] for q in quals]
+            if not all(c.kwarg for c in callees) or not all(closed(c) for c in callees):
+                continue
+            for k in s.node.keywords:
+                if k.arg is None or any(k.arg in c.params + c.kwonly for c in callees):
+                    continue
+                examined += 1
+                if vocab.get(k.arg, 0) == 0:
+                    out.append((fn, s.node, k.arg))
+    return examined, out
